@@ -660,6 +660,16 @@ def _c15_evt(ctx, m, exu, tsu, cap):
         if t.frm.endswith('_IDLE') and is_lin(cnt) and t.raw.facts.eq(cnt, 0) is True and not t.evs('st', loc=('S', 'unsolicited_fsm', 'unsolicited_cmd_buffer_items_count')):
             eff = [e for e in t.events if e['k'] in ('st', 'wr', 'cb', 'io_write')]
             ctx.check('ok-means-quiescent', not eff and cval(t.ret) == OK, t.site(), 'an idle event machine with an empty queue acts: %s' % _eff(eff))
+    # an idle event machine that sees a queued event takes it: leaving it where it is without doing anything else is
+    # not a wait for a stimulus - cat_service keeps answering BUSY (queue not empty) and nothing ever changes
+    cloc = ('S', 'unsolicited_fsm', 'unsolicited_cmd_buffer_items_count')
+    for t in tsu:
+        if t.frm.endswith('_IDLE') and t.to.endswith('_IDLE'):
+            cnt = t.raw.mem.get(cloc)
+            if is_lin(cnt) and not t.evs('st', loc=cloc) and t.raw.facts.eq(cnt, 0) is False:
+                eff = [e for e in t.events if e['k'] in ('st', 'wr', 'cb', 'io_write')]
+                ctx.check('progress', bool(eff), t.site(),
+                          '[queue capacity %d] an idle event machine leaves a queued event where it is and does nothing else: cat_service reports BUSY for ever without progress' % cap)
     # (c) progress: every cycle of silent steps carries a strictly increasing, bounded cursor
     _progress(ctx, 'evt', exu, tsu)
 
